@@ -1,8 +1,14 @@
 package main
 
 import (
+	"bytes"
 	"encoding/json"
+	"fmt"
 	"math/rand"
+	"os"
+	"os/exec"
+	"syscall"
+	"time"
 
 	"verif/harness/gen"
 	"verif/harness/render"
@@ -41,4 +47,83 @@ func trunc(s string, n int) string {
 		return s[:n] + "..."
 	}
 	return s
+}
+
+// ---------------------------------------------------------------- CLI runs
+
+type cliResult struct {
+	Exit     int
+	Signal   string
+	Out      string
+	CPU      float64
+	TimedOut bool // wall-clock watchdog fired (inconclusive, never a verdict)
+	Err      string
+}
+
+func yaccgoPath() string {
+	if v := os.Getenv("VERIF_YACCGO"); v != "" {
+		return v
+	}
+	return "yaccgo"
+}
+
+// runCLI runs the real yaccgo binary under RLIMIT_CPU (seconds) in dir.
+func runCLI(cpuLimit int, wall time.Duration, dir string, args ...string) cliResult {
+	sh := fmt.Sprintf("ulimit -t %d; exec \"$0\" \"$@\"", cpuLimit)
+	cmd := exec.Command("bash", append([]string{"-c", sh, yaccgoPath()}, args...)...)
+	cmd.Dir = dir
+	var buf bytes.Buffer
+	cmd.Stdout = &buf
+	cmd.Stderr = &buf
+	res := cliResult{}
+	if err := cmd.Start(); err != nil {
+		res.Err = err.Error()
+		res.Exit = -1
+		return res
+	}
+	done := make(chan error, 1)
+	go func() { done <- cmd.Wait() }()
+	var err error
+	select {
+	case err = <-done:
+	case <-time.After(wall):
+		res.TimedOut = true
+		cmd.Process.Signal(syscall.SIGQUIT)
+		select {
+		case err = <-done:
+		case <-time.After(5 * time.Second):
+			cmd.Process.Kill()
+			err = <-done
+		}
+	}
+	res.Out = buf.String()
+	if cmd.ProcessState != nil {
+		res.CPU = cmd.ProcessState.UserTime().Seconds() + cmd.ProcessState.SystemTime().Seconds()
+		if ws, ok := cmd.ProcessState.Sys().(syscall.WaitStatus); ok {
+			if ws.Signaled() {
+				res.Signal = ws.Signal().String()
+				res.Exit = 128 + int(ws.Signal())
+			} else {
+				res.Exit = ws.ExitStatus()
+			}
+		}
+	}
+	if err != nil && res.Exit == 0 && res.Signal == "" {
+		res.Err = err.Error()
+	}
+	return res
+}
+
+func scratch() string {
+	if v := os.Getenv("VERIF_SCRATCH"); v != "" {
+		return v
+	}
+	return os.TempDir()
+}
+
+func repoDir() string {
+	if v := os.Getenv("VERIF_REPO"); v != "" {
+		return v
+	}
+	return "/repo"
 }
